@@ -1,7 +1,7 @@
 #!/bin/bash
 # tools/confirm_mut.sh <pid> <k> [workdir] : independently confirm a seeded change in a scratch worktree:
 #   demo passes on the clean tree, fails with the change, the unedited suite still passes with the change.
-pid=$1; k=$2; wt=${3:-/tmp/wt_$pid}; d=/tmp/mut/$pid/m$k
+pid=$1; k=$2; wt=${3:-/tmp/wt_$pid}; d=${MUTDIR:-/tmp/mut}/$pid/m$k
 [ -f $d/patch.diff ] || { echo "$pid m$k: no patch"; exit 2; }
 git -C $wt checkout -q -- . ; git -C $wt clean -fdq
 cd $wt
